@@ -3,7 +3,7 @@
    binary-XML format with every choice a peer may make; RefD is the pinned reference
    dictionary; D the dictionary regenerated from the source on every run.               *)
 From YV Require Import Common.Tac C01.C01Model C02.C02Spec C01.C01DecodeNode C01.C01Encode
-     C01.C01Proofs C01.C01Inst Gen.C01Dict C02.C02RefDict C02.C02Inst.
+     C01.C01Proofs C01.C01Inst Gen.C01Dict C02.C02RefDict C02.C02Inst C02.C02RefEnc.
 Local Open Scope N_scope.
 
 (* what the library emits for a well-formed tree is a valid frame denoting that tree *)
@@ -34,3 +34,18 @@ Theorem C02_dictionary :
   NoDup (primary D ++ secondary D).
 Proof. exact dictionary_thm. Qed.
 Print Assumptions C02_dictionary.
+
+(* the reference encoder used by the check to play the peer: for EVERY choice vector its
+   output is a valid frame of the tree (so feeding it to the real decoder exercises
+   C02_accepts_all on the implementation), and by C02_accepts_all the model decodes it *)
+Theorem C02_reference_encoder_sound : forall inflate cs t,
+  ref_ok D t -> Frame D inflate t (ref_encode D cs t).
+Proof. exact (fun inflate cs t => ref_encode_sound D inflate cs t). Qed.
+Print Assumptions C02_reference_encoder_sound.
+
+Theorem C02_all_choices_decode : forall inflate cs t,
+  ref_ok D t -> attrs_ok t -> decode D inflate (ref_encode D cs t) = Ok (Some t).
+Proof.
+  exact (fun inflate cs t H O => accepts_all_thm D inflate t _ O (ref_encode_sound D inflate cs t H)).
+Qed.
+Print Assumptions C02_all_choices_decode.
